@@ -81,9 +81,9 @@ MinNonce(m, g) == IF g /\ m # "hmac" THEN 16 ELSE 1
 MinEntropyInst(m, g) == IF g /\ m # "hmac" THEN 32 ELSE 1
 
 Blank == [V |-> <<>>, C |-> <<>>, Key |-> <<>>, reseed_counter |-> 0]
-Full(r) == [V |-> r.V,
-            C |-> IF "C" \in DOMAIN r THEN r.C ELSE <<>>,
-            Key |-> IF "Key" \in DOMAIN r THEN r.Key ELSE <<>>,
+Full(r) == [V |-> D!Fix(r.V),                 \* concrete tuples in the state (see Drbg!Fix)
+            C |-> IF "C" \in DOMAIN r THEN D!Fix(r.C) ELSE <<>>,
+            Key |-> IF "Key" \in DOMAIN r THEN D!Fix(r.Key) ELSE <<>>,
             reseed_counter |-> r.reseed_counter]
 
 (* ---- the mechanisms, dispatched ---- *)
@@ -102,7 +102,7 @@ DoGenerate(m, g, s, n, a) ==      \* <<bytes, state>>
   ELSE LET r == CASE m = "hash" -> D!HashGenerate(Sm3, OutLen, SeedLen, g, s, n, a)
                   [] m = "hmac" -> D!HmacGenerate(HmKS, HmMac, OutLen, s, n, a)
                   [] m = "ctr"  -> D!CtrGenerate(Sm4KS, Sm4Enc, KeyLen, BlockLen, s, n, a)
-       IN <<r[1], Full(r[2])>>
+       IN <<D!Fix(r[1]), Full(r[2])>>
 
 Ok(out) == [kind |-> "ok", out |-> out]
 Fail(k) == [kind |-> k, out |-> <<>>]
@@ -130,7 +130,7 @@ Generate(n, a) ==
      IF NeedReseed \/ big
      THEN /\ reply' = Fail(IF NeedReseed /\ big THEN "anyerr" ELSE IF big THEN "err" ELSE "reseed")
           /\ UNCHANGED st
-     ELSE LET r == DoGenerate(mech, gm, st, n, a) IN
+     ELSE \E r \in {DoGenerate(mech, gm, st, n, a)} :    \* evaluated once (an action-level LET is re-evaluated per use)
           /\ reply' = Ok(r[1])
           /\ st' = r[2]
   /\ UNCHANGED <<inst, mech, gm, lastReseed, now>>
